@@ -1,6 +1,7 @@
 import Rare.Base.Proto
 import Rare.Model.C01
 import Rare.Model.C01Classify
+import Rare.Model.C01Trim
 import Rare.Model.PipelineTrace
 import Rare.Drv.Expr
 namespace Rare.Drv.C01
@@ -188,7 +189,8 @@ def traceCase (blob : String) (k : PipelineTrace.Cfg → List TraceOrder.Ev → 
     [<matcher> <ignores> <extract>]`: the reference outcome – sequential evaluation in which every line is
     classified with its own source name and 1-based line number (independent of batch/worker/reader/buffer
     settings, chunking and schedule – that independence is the theorem).
-    `ptrace <blob>`: trace inclusion of a real run's event log. -/
+    `ptrace <blob>`: trace inclusion of a real run's event log.
+    `trim <bytes>`: `strings.TrimSpace` / `expressions.Truthy`. -/
 def handle : List String → String
   | "pipe" :: ins :: rest =>
     match decHexList ins with
@@ -203,6 +205,11 @@ def handle : List String → String
       | _ => "bad-args"
     | none => "bad-args"
   | "ptrace" :: blob :: _ => traceCase blob fun cfg evs => (pipeTrace cfg evs).answer
+  | ["trim", h] =>
+    -- `strings.TrimSpace` byte for byte, `Truthy` as Go computes it, and the `truthy` of the shared expression model
+    match Hex.dec h with
+    | some b => s!"ok {Hex.enc (trimSpace b)} t={if truthyGo b then 1 else 0} m={if Expr.truthy b then 1 else 0}"
+    | none => "bad-args"
   | op :: blob :: _ =>
     -- `pmut<k> <blob>`: a real log damaged by the harness in a way that no run can produce; must be rejected
     if op.startsWith "pmut" then
